@@ -242,7 +242,7 @@ template<>
 inline void PropertyStorageT<bool>::deserialize(std::istream& _istr)
 {
     for(unsigned int i = 0; i < size(); ++i) {
-        value_type val;
+        value_type val = false; // stays untouched when the stream is in fail state
         OpenVolumeMesh::deserialize(_istr, val);
         data_[i] = val;
     }
